@@ -326,14 +326,14 @@ func formatRank(f string) int {
 // ---- normalisation -------------------------------------------------------------------------------
 
 var (
-	reUnitID  = regexp.MustCompile(`u[0-9]{7}`)
-	reDigits  = regexp.MustCompile(`[0-9]+`)
-	rePos     = regexp.MustCompile(`[A-Za-z0-9_./<>-]+\.(go|py|java):[0-9]+(:[0-9]+)?:?`)
+	reUnitID = regexp.MustCompile(`u[0-9]{7}`)
+	reDigits = regexp.MustCompile(`[0-9]+`)
+	rePos    = regexp.MustCompile(`[A-Za-z0-9_./<>-]+\.(go|py|java):[0-9]+(:[0-9]+)?:?`)
 	// string literals quoted in compiler messages (values derived from the schema's defaults / constants)
 	reQuotedLit = regexp.MustCompile(`"[^"]*[0-9][^"]*"`)
 	reNumType   = regexp.MustCompile(`\b(?:u?int|float)(?:8|16|32|64)\b`)
-	reSpaces  = regexp.MustCompile(`\s+`)
-	reTmpPath = regexp.MustCompile(`/var/tmp/verif\.[A-Za-z0-9_.]+`)
+	reSpaces    = regexp.MustCompile(`\s+`)
+	reTmpPath   = regexp.MustCompile(`/var/tmp/verif\.[A-Za-z0-9_.]+`)
 )
 
 // nameAbstractor replaces identifiers derived from the schema's object names
@@ -359,7 +359,9 @@ func nameAbstractor(names []string) func(string) string {
 	if len(alts) == 0 {
 		return abstractDerived
 	}
-	sort.Slice(alts, func(i, j int) bool { return len(alts[i]) > len(alts[j]) || len(alts[i]) == len(alts[j]) && alts[i] < alts[j] })
+	sort.Slice(alts, func(i, j int) bool {
+		return len(alts[i]) > len(alts[j]) || len(alts[i]) == len(alts[j]) && alts[i] < alts[j]
+	})
 	// a name followed by an upper-case/digit continuation or the end of the identifier, optionally prefixed by
 	// New/new or the upper-cased package name (Java: PRootF)
 	re := regexp.MustCompile(`\b(?:New|new)?P?(?:` + strings.Join(alts, "|") + `)(?:[A-Z0-9_][A-Za-z0-9_]*)?\b`)
